@@ -366,6 +366,8 @@ def rule_j5(ctx):
     b2 = ctx.body(SORTER2)
     gts = [(b, t) for b, t in b2.calls() if mir.last_seg(mir.callee(t) or "") == "push_gt_circuit"]
     cs = [(b, t) for b, t in b2.calls() if mir.last_seg(mir.callee(t) or "") == "push_condswap"]
+    if len(gts) == 1 and not cs:
+        return _j5_sorter2_adaptor(ctx, res, b2, gts[0])
     if len(gts) != 1 or len(cs) != 1:
         raise AnchorMissing("J5: push_sorter no longer has one comparison and one conditional swap")
 
@@ -399,6 +401,59 @@ def rule_j5(ctx):
                         ret[i] = r2
     if pushes.get("0") is not None and ret.get(0) == pushes.get("0") and ret.get(1) == pushes.get("1") and pushes.get("0") != pushes.get("1"):
         res.ok({"clause": "N8", "verdict": "push_sorter returns (rows of condswap.0, rows of condswap.1)"})
+    else:
+        res.bad(Finding("J5", SORTER2, "2-sorter results", "the first returned row must collect the first results of the conditional swap, the second the second", b2.fn["sp"]))
+    return res
+
+
+def _j5_sorter2_adaptor(ctx, res, b2, gt):
+    """N7 / N8 for the 2-sorter written as `x.iter().zip(y.iter()).map(|(&x, &y)| self.push_condswap(gt, x, y)).unzip()`."""
+    gb, g = gt
+    found = []
+    for c in sorted(ctx.cg.closures_of.get(b2.id, ())):
+        cb = ctx.body(c)
+        for b, t in cb.calls():
+            if mir.last_seg(mir.callee(t) or "") == "push_condswap":
+                found.append((c, cb, b, t))
+    if len(found) != 1:
+        raise AnchorMissing("J5: push_sorter no longer has one comparison and one conditional swap (also not inside one closure)")
+    cid, cb, xb, c = found[0]
+    site = ctx.closure_site(cid)
+    items = ctx.closure_item_sources(cid)
+    if not site or not items:
+        raise AnchorMissing("J5: cannot see where the closure of push_sorter is built and what it ranges over")
+    caps = site[1]["ops"]
+
+    def parent_side(op):
+        return {"x" if r == ("arg", 3) else "y" for (r, p) in b2.deep_sources(op, 3) if r in (("arg", 3), ("arg", 4))}
+
+    def side_in_closure(op):
+        out = set()
+        for (r, p) in cb.trace_operand(op):
+            if r == ("arg", 2) and p and (p[0],) in items[1]:
+                out |= parent_side(items[1][(p[0],)])
+            elif r == ("arg", 2) and () in items[1]:
+                out |= parent_side(items[1][()])
+        return out
+    sel_ok = False
+    for (r, p) in cb.trace_operand(c["args"][1]):
+        if r == ("arg", 1) and p and p[0].isdigit() and int(p[0]) < len(caps):
+            if any(r2[0] == "call" and r2[1] == gb for (r2, p2) in b2.trace_operand(caps[int(p[0])])):
+                sel_ok = True
+    if [parent_side(g["args"][2]), parent_side(g["args"][3])] == [{"x"}, {"y"}] and sel_ok and [side_in_closure(c["args"][2]), side_in_closure(c["args"][3])] == [{"x"}, {"y"}]:
+        res.ok({"clause": "N7", "verdict": "swap selector = gt(x, y); condswap(gt, x_i, y_i) in the map closure"})
+    else:
+        res.bad(Finding("J5", SORTER2, "2-sorter operands", "the 2-sorter must swap x_i, y_i under gt(x, y) (operands in this order)", c["sp"]))
+    # the closure answers with the pair as condswap returned it, `unzip` puts the first components in the first row
+    as_is = all(d[0] == "call" and d[1] == xb for d in cb.defs().get(0, [])) and bool(cb.defs().get(0))
+    maps = [(b, t) for b, t in b2.calls() if t["func"].get("declared") == "std::iter::Iterator::map" and len(t["args"]) == 2 and t["args"][1]["k"] in ("copy", "move") and
+            any(r[0] == "agg" and b2.blocks[r[1]]["stmts"][r[2]]["rv"] is site[1] for (r, p) in b2.trace(t["args"][1]["place"], through={}))]
+    unz = [(b, t) for b, t in b2.calls() if t["func"].get("declared") == "std::iter::Iterator::unzip" and maps and
+           any(r[:2] == ("call", maps[0][0]) for (r, p) in b2.trace_operand(t["args"][0], through={}))]
+    ret_ok = bool(unz) and (unz[0][1]["dest"]["l"] == 0 or any(d[0] == "assign" and d[3]["rv"]["k"] == "use" and any(r[:2] == ("call", unz[0][0]) for (r, p) in b2.trace_operand(d[3]["rv"]["op"]))
+                                                              for d in b2.defs().get(0, [])))
+    if as_is and ret_ok:
+        res.ok({"clause": "N8", "verdict": "push_sorter returns the unzipped (condswap.0, condswap.1) pairs"})
     else:
         res.bad(Finding("J5", SORTER2, "2-sorter results", "the first returned row must collect the first results of the conditional swap, the second the second", b2.fn["sp"]))
     return res
@@ -523,6 +578,55 @@ def rule_j6(ctx):
 DROPPERS = ("chunks_exact", "chunks_exact_mut", "array_chunks", "step_by", "skip", "take", "skip_while", "take_while", "filter", "windows", "nth", "rchunks_exact")
 
 
+def _j7_fold(ctx, res, fid, body, fold):
+    """The same conjunction written as `x.iter().zip(y).fold(1, |acc, (&x, &y)| and(acc, eq(x, y)))`."""
+    fb, ft = fold
+    clos = ft["args"][2]
+    cids = [body.blocks[r[1]]["stmts"][r[2]]["rv"].get("closure") for (r, p) in body.trace(clos["place"], through={}) if r[0] == "agg"] if clos["k"] in ("copy", "move") else []
+    if len(cids) != 1 or not cids[0] or not ctx.has_fn(cids[0]):
+        raise AnchorMissing("J7: the fold in push_eq_circuit is not given a closure of this function")
+    cb = ctx.body(cids[0])
+    site = ctx.closure_item_sources(cids[0])
+    item = site[1] if site else {}
+    which = {}
+    for pre, op in item.items():
+        which[pre] = {r[1] for (r, p) in body.deep_sources(op, 3) if r in (("arg", 2), ("arg", 3))}
+    ceqs = [(b, t) for b, t in cb.calls() if mir.last_seg(mir.callee(t) or "") == "push_eq"]
+    cands = [(b, t) for b, t in cb.calls() if mir.last_seg(mir.callee(t) or "") == "push_and"]
+    if len(ceqs) != 1 or not cands:
+        raise AnchorMissing("J7: the fold closure of push_eq_circuit does not compare with one push_eq and conjoin with push_and")
+    eb, et = ceqs[0]
+    sides = []
+    for a in et["args"][1:3]:
+        ss = set()
+        for (r, p) in cb.trace_operand(a):
+            if r == ("arg", 3) and p and (p[0],) in which:
+                ss |= which[(p[0],)]
+        sides.append(ss)
+    if sides[0] and sides[1] and sides[0] != sides[1] and len(sides[0]) == 1 and len(sides[1]) == 1:
+        res.ok({"clause": "positions", "verdict": "push_eq(x[i], y[i]) over the zipped keys (fold closure)"})
+    else:
+        res.bad(Finding("J7", fid, "key positions are not compared pairwise", "push_eq gets operands from %s" % sides, et["sp"]))
+    good = []
+    for b, t in cands:
+        srcs = [cb.trace_operand(a) for a in t["args"][1:3]]
+        has_eq = [any(r[0] == "call" and r[1] == eb for (r, p) in sset) for sset in srcs]
+        has_acc = [any(r == ("arg", 2) and not p for (r, p) in sset) for sset in srcs]
+        if (has_eq[0] and has_acc[1]) or (has_eq[1] and has_acc[0]):
+            good.append(b)
+    returned = bool(good) and all((d[0] == "call" and d[1] in good) or
+                                  (d[0] == "assign" and d[3]["rv"]["k"] == "use" and any(r[0] == "call" and r[1] in good for (r, p) in cb.trace_operand(d[3]["rv"]["op"])))
+                                  for d in cb.defs().get(0, []))
+    skip = cb.must_pass(set(good)) if good else [0]
+    out_ok = ft["dest"]["l"] == 0 or any(d[0] == "assign" and d[3]["rv"]["k"] == "use" and any(r[:2] == ("call", fb) for (r, p) in body.trace_operand(d[3]["rv"]["op"]))
+                                         for d in body.defs().get(0, []))
+    if good and returned and not skip and out_ok:
+        res.ok({"clause": "conjunction", "verdict": "the fold closure ands every position's comparison into the accumulator, the fold's result is returned"})
+    else:
+        res.bad(Finding("J7", fid, "a position's comparison can be left out of the conjunction", "every step of the fold must and its comparison into the accumulator that is returned", et["sp"]))
+    return res
+
+
 def rule_j7(ctx):
     """Key equality compares every bit position: eq(x[i], y[i]) for all i, all conjoined."""
     res = RuleResult("J7", "push_eq_circuit compares every bit position of the two keys and conjoins all comparisons")
@@ -540,6 +644,9 @@ def rule_j7(ctx):
                         "%s can drop elements (a leftover chunk, a skipped prefix ...): keys that differ only in the dropped positions compare as equal and rows with different keys are joined" % mir.last_seg(mir.callee(t)),
                         t["sp"]))
     eqs = [(b, t) for b, t in body.calls() if mir.last_seg(mir.callee(t) or "") == "push_eq"]
+    fold = [(b, t) for b, t in body.calls() if t["func"].get("declared") == "std::iter::Iterator::fold" and len(t["args"]) == 3]
+    if not eqs and len(fold) == 1 and not drops:
+        return _j7_fold(ctx, res, fid, body, fold[0])
     if len(eqs) != 1:
         if not drops:
             raise AnchorMissing("J7: push_eq_circuit no longer compares the positions with one push_eq call in a loop")
